@@ -199,7 +199,8 @@ func (m MappingValues) Get(key I2PString) I2PString {
 
 // ValuesToMapping creates a *Mapping using MappingValues.
 // The values are sorted in the order defined in mappingOrder.
-// Returns error if the total mapping data exceeds the maximum size (65535 bytes).
+// Returns error if the total mapping data exceeds the maximum size (65535 bytes)
+// or if there are more pairs than ReadMapping accepts (MAX_MAPPING_PAIRS).
 func ValuesToMapping(values MappingValues) (*Mapping, error) {
 	mappingOrder(values)
 
@@ -209,6 +210,13 @@ func ValuesToMapping(values MappingValues) (*Mapping, error) {
 	log.WithFields(logger.Fields{
 		"values_count": len(values),
 	}).Debug("Converting MappingValues to Mapping")
+	if len(values) > MAX_MAPPING_PAIRS {
+		log.WithFields(logger.Fields{
+			"values_count": len(values),
+			"max_pairs":    MAX_MAPPING_PAIRS,
+		}).Error("Mapping exceeds maximum pair count")
+		return nil, oops.Errorf("mapping has %d pairs, exceeds maximum %d", len(values), MAX_MAPPING_PAIRS)
+	}
 	baseLength := 2 * len(values)
 	for _, mappingVals := range values {
 		for _, keyOrVal := range mappingVals {
